@@ -6,7 +6,7 @@ from ..searchmon import SequOOLMon
 
 PROP = "C12"
 FAMS = ["neg", "const", "zero", "tied", "twoval", "noisy", "unit", "large", "incr", "decr", "cl_hump", "cl_garland",
-        "cl_step", "best_first", "best_last"]
+        "cl_step", "best_first", "best_last", "incr", "drift", "best_last", "noisy", "quant5"]
 RULE = ("SequOOL with budgets n = 10..2000 on all partitions, d=1..3, T = n (plus get_last_point queries in the last "
         "rounds); every make_children is an 'open' event judged against the ledger at that moment (first open is the "
         "root, depths non-decreasing in steps of one, at most floor(h_max/h) opens at depth h, none beyond h_max, best "
@@ -27,9 +27,13 @@ def gen_cases(rng, tier, count=None):
     out = []
     ns = [10, 17, 30, 64, 100, 150, 257, 400] + ([800, 1500, 2000] if tier == "thorough" else [600])
     for i in range(count):
-        c = gen.algo_case(rng, "SequOOL", tier, fams=FAMS, early_stop=False, n=int(rng.choice(ns)))
+        n = int(rng.choice(ns)) if i % 2 else int(rng.integers(10, 400 if tier == "quick" else 1200))
+        c = gen.algo_case(rng, "SequOOL", tier, fams=FAMS, early_stop=False, n=n)
         T = c["T"]
-        c["queries"] = sorted({T - 1 - j for j in range(int(rng.integers(0, 4))) if T - 1 - j >= 0})
+        if rng.random() < 0.6:
+            c["queries"] = list(range(T))  # after every round: the recommendation at exhaustion is known exactly
+        else:
+            c["queries"] = sorted({T - 1 - j for j in range(int(rng.integers(0, 4))) if T - 1 - j >= 0})
         out.append(c)
     return out
 
